@@ -8,10 +8,16 @@ flatten(absolute|relative) . split) must restore the original content.  Every re
 invariant) and, for tensors, RC (C02's invariant) and containment of every stored coordinate in the shape the
 result itself declares as authoritative for that rank; a transform raising on a legal tree is a violation.
 Operands include trees in which one rank already carries tuple coordinates (the residue of an earlier tuple / pair
-flattening, built on the spec by the reference map): swizzle, swap, tuple / pair flatten + unflatten, absolute merge.
+flattening, built on the spec by the reference map): swizzle, swap, tuple / pair flatten + unflatten, absolute merge;
+tensors that are the result of a split (tiled rank: partitions with different active ranges, dotted rank ids); and
+tensors whose rank ids have more than one character.  A round trip at tensor level must also restore the operand's
+rank ids (an equal tensor has equal rank ids; read from the raw rank attributes).  "Every result is itself a
+well-formed tensor" is also judged by its consequence: a result that passed the oracle is re-used as the operand of a
+split followed by flatten('absolute'), which must restore the result's content (clause result-reused).
 
 Violation keys: `<Entry>.<method>[:style]:<clause>:<kind>` (clause = content / roundtrip / WF:<kinds> / WF:coordinate-outside-declared-shape /
-RC / raised:<Exc>@<innermost library function>).  A violation whose *input* lies in one of a few recognised classes (TAG_* below: a stored but
+RC / rank-ids-not-restored / raised:<Exc>@<innermost library function>; re-use of a result: `<Entry>.<method>:result-reused:
+split+flatten(absolute):mismatch` or `...:result-reused:raised:...`).  A violation whose *input* lies in one of a few recognised classes (TAG_* below: a stored but
 content-empty sub-tree at the transform's depth, a zero-length fiber strictly inside the merged ranks, a coordinate
 outside a stale estimated shape, ...) and whose failure site is one that class can explain is keyed
 `<transform family>:<class>:<failure kind>` instead, so that one mechanism is one key.
@@ -38,10 +44,19 @@ SPEC = {
              "and through Tensor.update*(depth=d).  A quarter of the swizzle / swap / flatten(tuple, pair)+unflatten / "
              "merge(absolute) cases take an operand in which one rank (any position) already carries tuple coordinates: flat "
              "tuples or nested pairs of 2-3 combined integer ranks, rank id = list of the combined ids, shape authoritative "
-             "(tuple shaped) or estimated.  Systematic part: every (transform, depth, levels, style, entry point, "
+             "(tuple shaped) or estimated.  Half of the tensors have rank ids of more than one character (numbered K0 M1 .., "
+             "words, or the dotted ids a split leaves); every tensor-level round trip must restore the operand's rank ids.  A "
+             "fifth of the tensor-level swizzle / swap / flatten(tuple, pair)+unflatten cases take as operand the result of a "
+             "split (uniform / equal / nonuniform / unequal, any depth, absolute or relative coordinates) of a depth 2-3 "
+             "tensor whose split rank has extent 4-6, i.e. a tiled tensor whose partitions have different active ranges.  A "
+             "third of the tensor results of swizzle / swap / flatten+unflatten / merge (60% after a split) are re-used: "
+             "split (any kind) of one of the result's integer ranks followed by flatten('absolute') must restore the "
+             "result's content.  Systematic part: every (transform, depth, levels, style, entry point, "
              "permutation) over a fixed family of 5 trees per depth, and every (swizzle permutation, swap, tuple/pair flatten, "
              "absolute merge; depth, levels, entry point) over every position and nesting of one tuple-coordinate rank "
-             "(depth 2-3, 2 trees each); then random cases.  Every tensor result is also checked for containment of its stored "
+             "(depth 2-3, 2 trees each), and every (swizzle permutation, swap depth, tuple/pair flatten (depth, levels)) over a "
+             "fixed family of split results (every split depth; split kinds; absolute and relative; depth 3-4), each with a "
+             "re-use step; then random cases.  Every tensor result is also checked for containment of its stored "
              "coordinates in the shape it declares authoritative.  Non-trivial = the operand holds at "
              "least 2 points, the transform returned a result that passed the oracle, and its image differs from the original "
              "content (merges: at least one real collision of points; split round trips and updatePayloads: at least 2 "
@@ -55,10 +70,14 @@ SPEC = {
                              "kind:flatten": 500, "kind:merge": 300, "kind:splitflat": 200, "kind:updcoords": 150,
                              "kind:updpay": 100, "containment_checked": 1500, "tuple_rank_inputs": 500,
                              "tuple_rank:swizzle": 100, "tuple_rank:swap": 60, "tuple_rank:flatten": 200,
-                             "tuple_rank:merge": 100},
+                             "tuple_rank:merge": 100, "multichar_id_inputs": 1000, "rank_ids_checked": 1200,
+                             "pre_split_inputs": 500, "pre_split_several_partitions": 350, "pre_split:swizzle": 200,
+                             "pre_split:swap": 60, "pre_split:flatten": 200, "results_reused": 400},
                    "thorough": {"evaluations": 30000, "oracle_evals": 150000, "results_judged": 50000,
                                 "roundtrips_checked": 15000, "collisions_merged": 5000, "containment_checked": 15000,
-                                "tuple_rank_inputs": 5000, "tuple_rank:swap": 500}},
+                                "tuple_rank_inputs": 5000, "tuple_rank:swap": 500, "multichar_id_inputs": 10000,
+                                "rank_ids_checked": 12000, "pre_split_inputs": 4000, "pre_split_several_partitions": 3000,
+                                "results_reused": 4000}},
     "assumptions": [
         "ordered/unique fibers with integer coordinates in the operand; coordinates (also those written through getPayloadRef) lie "
         "inside the shape when a shape is declared",
@@ -96,6 +115,24 @@ SPEC = {
         "getPayloadRef write or for tuple coordinates whose estimate comes from the largest coordinate only - because "
         "Tensor.fromFiber declares the copied estimate authoritative; swaps with a content-empty sub-tree at their depth "
         "(left un-swapped); 'relative' merges of independent ranks (declared shape is the upper rank's)",
+        "rank ids: strings of 1-5 characters (letters, digits, a dot), distinct within a tensor; a tuple-coordinate rank has "
+        "the list of the ids it combines.  Rank ids are judged only on tensor-level round trips (swizzle + inverse, swap twice, "
+        "flatten(tuple / pair) + unflatten): they must equal the operand's (the statement's `restores an equal tensor`; which ids "
+        "an intermediate result carries is C14's).  TEMPORARY guard pending decision: not judged when an upper combined rank of the "
+        "flattening already has a list id - the id of a flattened rank is a flat list, so [[K, M], N] -> [K, M, N] is "
+        "unflattened to K, [M, N] although the coordinates are restored",
+        "operands that are the result of a split: the split is C08's - the case is dropped unless the split returned a "
+        "well-formed tensor (WF, RC) that holds every point of the original at its image and the original has no stored "
+        "content-empty sub-tree at the split depth; content is then read from the raw lists of the split result.  Only "
+        "tensor-level swizzle, swap and flatten(tuple / pair) + unflatten are driven on them; no getPayloadRef writes, no "
+        "tuple-coordinate rank",
+        "re-use of a result (clause result-reused): only tensor results that passed the oracle and hold at least one point; the "
+        "split is applied (absolute coordinates, no halo) to a rank with integer coordinates (also one with a list id: a merged or "
+        "linearly flattened rank).  Not judged (same guards as containment): stale estimated shapes, swaps / unflattenings with a "
+        "content-empty sub-tree at their depth (left as they are), 'relative' merges of independent ranks, a stored "
+        "content-empty sub-tree at the depth of the new split (C08's), and operands of which a stored coordinate lies outside its "
+        "fiber's active range (the partitions of a relativeCoords split keep an absolute active range: a split of such a "
+        "tensor drops points already before any transform)",
         "not generated: U-format ranks, halo splits",
     ],
 }
@@ -105,6 +142,11 @@ STYLES_MERGE = ["absolute", "relative"]
 SPLITS = ["uniform", "equal", "nonuniform", "unequal"]
 CFUNCS = ["shift3", "scale2p1", "reverse"]
 PFUNCS = ["scale3", "coordmix", "scale3box"]
+# rank ids of more than one character (None = the single letters K, M, N, ..): numbered, words, and the dotted ids splits leave
+ID_SETS = {"numbered": ["K0", "M1", "N2", "P3", "Q4", "R5"], "words": ["batch", "chan", "row", "col", "tap", "lane"],
+           "dotted": ["K.1", "K.0", "M.1", "M.0", "N", "P.0"]}
+PRE_KINDS = ("swizzle", "swap", "flatten")      # transforms also driven on operands that are the result of a split
+SPLIT_METH = {"uniform": "splitUniform", "equal": "splitEqual", "nonuniform": "splitNonUniform", "unequal": "splitUnEqual"}
 
 
 # ------------------------------------------------------------------------------------------
@@ -174,6 +216,7 @@ def _tree(rng, D, default=0, dirty=0.0, p=0.7, positive=False, ext=None):
 
 
 TUPLE_KINDS = ("swizzle", "swap", "flatten", "merge")      # transforms also driven on operands with a tuple-coordinate rank
+POST_KINDS = ("swizzle", "swap", "flatten", "merge")       # tensor results that are re-used as the operand of a split + flatten
 
 
 def _jlist(c):
@@ -219,6 +262,8 @@ def _tfamily(D):
                 for default, dirty, p, shaped in ((0, 0.0, 0.8, True), (7 if tr % 2 else 0, 0.5, 0.75, False)):
                     spec, ext, info = _tuple_tree(r, D, tr, tl, tstyle, default, dirty, p)
                     fam.append(dict(info, spec=spec, depth=D, default=default, shape=ext if shaped else None))
+                    if not shaped:
+                        fam[-1]["ids"] = ID_SETS[("numbered", "words", "dotted")[(tr + tl) % 3]][:D + tl]
     return fam
 
 
@@ -250,7 +295,57 @@ def _family(D):
         spec, ext = _tree(r, D, default, dirty, p)
         fam.append({"spec": spec, "depth": D, "default": default, "shape": ext if shaped else None})
     fam.append({"spec": [], "depth": D, "default": 0, "shape": [2] * D})
+    for i, name in ((1, "numbered"), (2, "dotted"), (3, "words")):
+        fam[i]["ids"] = ID_SETS[name][:D]
     return fam
+
+
+def _pre_tree(rng, D, ds, default=0, dirty=0.0, p=0.7):
+    """A tree of depth D - 1 whose rank `ds` is wide enough to be split into several partitions (the operand of the
+    transform is the result of that split and has depth D)."""
+    ext = [rng.randint(2, 3) for _ in range(D - 1)]
+    ext[ds] = rng.randint(4, 6)
+    return _tree(rng, D - 1, default, dirty, p, ext=ext)
+
+
+def _post(i, D=None):
+    """Deterministic choice of the re-use step (split kind / argument / index of the integer rank) from a running index."""
+    sk = SPLITS[i % 4]
+    return {"split": sk, "arg": _split_arg(sk, 2 + (i // 4) % 2), "d": i // 2}
+
+
+def _pfamily(D):
+    """Fixed family of (tree of depth D - 1, split) pairs: every split depth, split kinds, absolute and relative."""
+    r = random.Random(9200 + D)
+    fam = []
+    for ds in range(D - 1):
+        for si, sk in enumerate(SPLITS if D == 3 else ("uniform", "unequal")):
+            for rel in (False, True):
+                k = len(fam)
+                default, dirty, p, shaped = ((0, 0.0, 0.85, True), (7, 0.4, 0.75, False), (0, 0.5, 0.8, True))[k % 3]
+                spec, ext = _pre_tree(r, D, ds, default, dirty, p)
+                base = {"spec": spec, "depth": D, "default": default, "shape": ext if shaped else None,
+                        "pre": {"split": sk, "arg": _split_arg(sk, 2 + (k + si) % 2), "d": ds, "rel": rel}}
+                if k % 4 == 1:
+                    base["ids"] = ID_SETS["numbered"][:D - 1]
+                fam.append(base)
+    return fam
+
+
+def _systematic_pre():
+    n = 0
+    for D in (3, 4):
+        for base in _pfamily(D):
+            for perm in itertools.permutations(range(D)):
+                n += 1
+                yield dict(base, kind="swizzle", perm=list(perm), post=_post(n))
+            for d in range(D - 1):
+                n += 1
+                yield dict(base, kind="swap", d=d, mode="tensor", post=_post(n))
+            for d, l in _dl_choices(D):
+                for style in STYLES_FLAT[:2]:
+                    n += 1
+                    yield dict(base, kind="flatten", d=d, l=l, style=style, mode="tensor", post=_post(n))
 
 
 def _systematic():
@@ -324,14 +419,18 @@ def _merge_legal(c):
 
 def generate(rng, tier, shard, nshards, mon):
     idx = 0
-    for case in itertools.chain(_systematic(), _systematic_tuple()):
+    for case in itertools.chain(_systematic(), _systematic_tuple(), _systematic_pre()):
         if idx % nshards == shard:
             case["sys"] = True
+            if "post" not in case and idx % 3 == 0 and case["kind"] in POST_KINDS and case.get("mode", "tensor") == "tensor":
+                case["post"] = _post(idx // 3)
             yield case
         idx += 1
     mon.exhaustive["all (transform, depth, levels, style, entry point, permutation) over the fixed tree family"] = True
     mon.exhaustive["all (swizzle, swap, tuple/pair flatten, absolute merge; depth, levels, entry point) x every position and "
                    "nesting of one tuple-coordinate rank, depth 2-3"] = True
+    mon.exhaustive["all (swizzle permutation, swap depth, tuple/pair flatten (depth, levels)) on the result of a split "
+                   "(every split depth; kinds; absolute / relative coordinates), depth 3-4"] = True
     nrand = (8000 if tier == "quick" else 400000) // nshards
     for _ in range(nrand):
         yield _random_case(rng)
@@ -345,8 +444,16 @@ def _random_case(rng):
     kind = rng.choice(["swizzle", "swizzle", "swap", "flatten", "flatten", "flatten", "merge", "merge", "splitflat",
                        "updcoords", "updpay"])
     positive = kind == "merge" and rng.random() < 0.4
-    tinfo = None
-    if kind in TUPLE_KINDS and rng.random() < 0.25:
+    tinfo = pre = None
+    if kind in PRE_KINDS and rng.random() < 0.2:
+        D = rng.choice([3, 3, 4])
+        sk = rng.choice(SPLITS)
+        n = rng.randint(2, 3)
+        pre = {"split": sk, "d": rng.randrange(D - 1), "rel": rng.random() < 0.3,
+               "arg": n if sk in ("uniform", "equal") else ([0] + sorted(rng.sample(range(1, 6), rng.randint(1, 2))) if sk == "nonuniform"
+                                                            else [rng.randint(1, 2) for _ in range(rng.randint(1, 3))])}
+        spec, ext = _pre_tree(rng, D, pre["d"], default, dirty, p)
+    elif kind in TUPLE_KINDS and rng.random() < 0.25:
         tl = rng.choice([1, 1, 2]) if D < 4 else 1
         spec, ext, tinfo = _tuple_tree(rng, D, rng.randrange(D), tl, rng.choice(["tuple", "pair"]), default, dirty, p, positive)
     else:
@@ -359,17 +466,23 @@ def _random_case(rng):
     else:
         shape = ext if r < 0.55 else ([e + rng.randint(0, 2) for e in ext] if r < 0.7 else None)
     case = dict(tinfo or {}, kind=kind, spec=spec, depth=D, default=default, shape=shape)
+    if pre:
+        case["pre"] = pre
+    if rng.random() < 0.5:
+        name = rng.choice(sorted(ID_SETS))
+        off = rng.randrange(2)
+        case["ids"] = ID_SETS[name][off:off + len(ext) + (tinfo["tl"] if tinfo else 0)]
     if kind == "swizzle":
         perm = list(range(D))
         rng.shuffle(perm)
         case["perm"] = perm
     elif kind == "swap":
         d = rng.randrange(D - 1)
-        case.update(d=d, mode=rng.choice(["tensor", "fiber" if d == 0 else "below"]))
+        case.update(d=d, mode="tensor" if pre else rng.choice(["tensor", "fiber" if d == 0 else "below"]))
     elif kind == "flatten":
         d, l = rng.choice(_dl_choices(D))
-        style = rng.choice(STYLES_FLAT if shape is not None and not tinfo else STYLES_FLAT[:2])
-        mode = rng.choice(["tensor", "fiber", "below"] if d > 0 else ["tensor", "fiber"])
+        style = rng.choice(STYLES_FLAT if shape is not None and not tinfo and not pre else STYLES_FLAT[:2])
+        mode = "tensor" if pre else rng.choice(["tensor", "fiber", "below"] if d > 0 else ["tensor", "fiber"])
         case.update(d=d, l=l, style=style, mode=mode)
     elif kind == "merge":
         d, l = rng.choice(_dl_choices(D))
@@ -390,7 +503,10 @@ def _random_case(rng):
                     new_shape=rng.choice([None, 32]))
     else:
         case.update(fn=rng.choice(PFUNCS), mode=rng.choice(["tensor", "fiber"]))
-    if case.get("mode", "tensor") == "tensor" and not tinfo and rng.random() < 0.3:
+    if kind in POST_KINDS and case.get("mode", "tensor") == "tensor" and rng.random() < (0.6 if pre else 0.3):
+        sk = rng.choice(SPLITS)
+        case["post"] = {"split": sk, "arg": _split_arg(sk, rng.randint(1, 3)), "d": rng.randrange(4)}
+    if case.get("mode", "tensor") == "tensor" and not tinfo and not pre and rng.random() < 0.3:
         case["pokes"] = _pokes(rng, D, ext, shape, default)
         if kind == "merge" and not _merge_legal(case):
             del case["pokes"]
@@ -476,11 +592,22 @@ def _class_key(op, tags, kind):
     return f"{_op_family(op)}:{'+'.join(sorted(tags))}:{kind}"
 
 
+class _Skip(Exception):
+    """The operand of the case could not be prepared (a precondition that is another property's failed)."""
+
+
 class _Ctx:
     def __init__(self, mon, case):
         self.mon, self.case, self.default = mon, case, case["default"]
         self.note = ""              # appended to violation messages (operand class)
         self.no_containment = None  # reason why the result's declared shape is not judged against its stored coordinates
+        self.ids = None             # rank ids of the tensor operand (what a round trip has to restore)
+        self.no_reuse = None        # reason why a result of this case is not re-used as the operand of a split
+
+
+def _raw_ids(t):
+    """Rank ids read from the raw rank attributes."""
+    return [rk._attrs.__dict__.get("_id") for rk in t.ranks]
 
 
 def _root(x):
@@ -552,10 +679,11 @@ def _outside_declared_shape(t):
     return bad, sum(1 for sh in shapes if sh is not None)
 
 
-def _judge(ctx, op, desc, res, expected, clause="content", style=None, tags=(), alt=None, ctags=(), cls_op=None):
+def _judge(ctx, op, desc, res, expected, clause="content", style=None, tags=(), alt=None, ctags=(), cls_op=None, ids=None):
     """WF / RC of a result and its content (read with the operand's default) against the expected map.
     `tags` qualify WF/RC keys (and the content key of a malformed result), `ctags` the content key;
-    `alt` = (name, content map) of a recognised wrong model."""
+    `alt` = (name, content map) of a recognised wrong model; `ids` = rank ids a round trip has to restore
+    (an equal tensor has equal rank ids)."""
     mon, default = ctx.mon, ctx.default
     desc += ctx.note
     ok = True
@@ -598,6 +726,15 @@ def _judge(ctx, op, desc, res, expected, clause="content", style=None, tags=(), 
                               f"e.g. rank {i} ({res.ranks[i].getId()}) declares {sh} and stores {pt}")
             elif nranks:
                 mon.count("oracle_evals")
+        if ids is not None:
+            mon.count("rank_ids_checked")
+            got_ids = _raw_ids(res)
+            if got_ids != list(ids):
+                ok = False
+                mon.violation(_key([op, clause, "rank-ids-not-restored"]),
+                              f"{desc}: the round trip does not restore an equal tensor: rank ids {got_ids}, operand had {list(ids)}")
+            else:
+                mon.count("oracle_evals")
     root = _root(res)
     if not isinstance(root, Fiber):
         mon.violation(f"{op}:result-type", f"{desc} returned a tensor whose root is {type(root).__name__}")
@@ -630,10 +767,12 @@ def _judge(ctx, op, desc, res, expected, clause="content", style=None, tags=(), 
 def _rank_ids(case):
     """Rank ids of the operand; a tuple-coordinate rank is named like a flattened rank (the list of the ids it combines)."""
     D, tr = case["depth"], case.get("tr")
+    if case.get("pre"):
+        D -= 1                      # the tensor that is split first
     if tr is None:
-        return gen.rank_ids_for(D)
+        return list(case.get("ids") or gen.rank_ids_for(D))[:D]
     tl = case["tl"]
-    base = gen.rank_ids_for(D + tl)
+    base = list(case.get("ids") or gen.rank_ids_for(D + tl))
     grp = base[tr:tr + tl + 1]
     return base[:tr] + [grp] + base[tr + tl + 1:]
 
@@ -674,6 +813,19 @@ def _operand(ctx, mode, need_shape=False):
         stored = spec_of(_root(x))
     else:
         c0, stored = seen, case["spec"]
+    if isinstance(x, Tensor):
+        ids = _raw_ids(x)
+        if ids != _rank_ids(case):
+            raise RuntimeError(f"harness: built tensor has rank ids {ids}, asked for {_rank_ids(case)}")
+        if any(len(i) > 1 for i in ids if isinstance(i, str)):
+            ctx.mon.count("multichar_id_inputs")
+    if case.get("pre") and mode == "tensor":
+        x, c0, stored = _pre_split(ctx, x, c0, stored)
+    if isinstance(x, Tensor):
+        ctx.ids = _raw_ids(x)
+        if case.get("post") and _outside_active(x):
+            # e.g. the partitions of a relativeCoords split: relative coordinates, absolute active range (splitting is C08's)
+            ctx.no_reuse = "operand-coordinate-outside-its-active-range"
     if isinstance(x, Tensor) and _outside_declared_shape(x)[0]:
         ctx.no_containment = "operand-outside-its-declared-shape"       # not generated (assumption 1)
     elif _stale_tag(x):
@@ -689,6 +841,95 @@ def _operand(ctx, mode, need_shape=False):
     if not c0:
         ctx.mon.count("empty_inputs")
     return x, c0, stored
+
+
+def _pre_split(ctx, t, c0, stored):
+    """The operand of the transform is the result of a split of the built tensor.  The split is C08's: the case is
+    dropped unless the split returned a well-formed tensor that holds every point of the original at its image."""
+    pre, mon, default = ctx.case["pre"], ctx.mon, ctx.default
+    ds, rel = pre["d"], pre["rel"]
+    if _skip_tag(stored, ds, default):
+        mon.count("pre_split_skipped:stored-empty-subtree")     # the split leaves such a sub-tree unsplit (C08's)
+        raise _Skip()
+    try:
+        s = getattr(t, SPLIT_METH[pre["split"]])(pre["arg"], depth=ds, relativeCoords=rel)
+    except BaseException as e:      # noqa
+        if isinstance(e, KeyboardInterrupt):
+            raise
+        mon.count("pre_split_skipped:raised")
+        raise _Skip()
+    if not isinstance(s, Tensor) or WF(s) or RC(s):
+        mon.count("pre_split_skipped:not-wf")
+        raise _Skip()
+    cs = content(_root(s), default)
+    back = {pt[:ds] + ((pt[ds] + pt[ds + 1]) if rel else pt[ds + 1],) + pt[ds + 2:]: v for pt, v in cs.items()}
+    if len(cs) != len(c0) or back != c0:
+        mon.count("pre_split_skipped:not-a-partition")          # e.g. a point outside a stale estimated shape is dropped
+        raise _Skip()
+    mon.count("pre_split_inputs")
+    mon.count(f"pre_split:{ctx.case['kind']}")
+    if len({pt[:ds + 1] for pt in cs}) > len({pt[:ds] for pt in cs}):
+        mon.count("pre_split_several_partitions")
+    ctx.note = (f" [operand: result of {SPLIT_METH[pre['split']]}({pre['arg']}, depth={ds}, relativeCoords={rel}) "
+                f"of a {_raw_ids(t)} tensor]")
+    return s, cs, spec_of(_root(s))
+
+
+def _int_ranks(t):
+    """Depths of the ranks of a tensor whose stored coordinates are all integers (raw lists, by depth)."""
+    out, level = [], [t.__dict__.get("_root")]
+    for i in range(len(t.ranks)):
+        fs = [f for f in level if isinstance(f, Fiber)]
+        if all(isinstance(c, int) and not isinstance(c, bool) for f in fs for c in f.coords):
+            out.append(i)
+        level = [p for f in fs for p in f.payloads]
+    return out
+
+
+def _outside_active(t):
+    """Some stored integer coordinate of the tensor lies outside the active range of its fiber (a split iterates the
+    active range only)."""
+    for rk in t.ranks:
+        for f in rk.getFibers():
+            if f.coords and all(isinstance(c, int) for c in (f.coords[0], f.coords[-1])):
+                lo, hi = f.getActive()
+                if not (isinstance(lo, int) and lo <= f.coords[0] and f.coords[-1] < hi):
+                    return True
+    return False
+
+
+def _reuse(ctx, op, desc, r, exp, skip=None):
+    """Every result is itself a well-formed tensor: a result that passed the oracle is used as the operand of a split
+    followed by flatten('absolute'), which has to restore the result's content."""
+    post, mon, default = ctx.case.get("post"), ctx.mon, ctx.default
+    if not post or not isinstance(r, Tensor):
+        return
+    skip = skip or ctx.no_reuse or ctx.no_containment
+    if skip:
+        mon.count("reuse_not_judged:" + skip)       # same guards as for containment (stale shapes, ...)
+        return
+    # (Tensor.split* of a rank whose id is a list - a flattened / merged rank - raised TypeError in _splitGeneric until
+    # repository fix bcc6b99; merged ranks are re-split too)
+    ranks = list(_int_ranks(r))
+    if not ranks or not exp:
+        mon.count("reuse_not_judged:no-integer-rank-or-empty")
+        return
+    dd = ranks[post["d"] % len(ranks)]
+    if _skip_tag(spec_of(_root(r)), dd, default):
+        mon.count("reuse_not_judged:stored-empty-subtree")      # the split leaves such a sub-tree unsplit (C08's)
+        return
+    meth = SPLIT_METH[post["split"]]
+    op = op + ":result-reused"
+    desc = f"{meth}({post['arg']}, depth={dd}) then flattenRanks(depth={dd}, levels=1, 'absolute') of the result of {desc}"
+    ok, s = _call(ctx, op, desc, getattr(r, meth), post["arg"], depth=dd)
+    if not ok:
+        return
+    ok, f = _call(ctx, op, desc, s.flattenRanks, depth=dd, levels=1, coord_style="absolute")
+    if not ok:
+        return
+    mon.count("results_reused")
+    mon.count("roundtrips_checked")
+    _judge(ctx, op, desc, f, exp, "split+flatten(absolute)")
 
 
 def _fibers_at(spec, level):
@@ -747,8 +988,11 @@ def run_case(case, mon):
     if case["default"] != 0:
         mon.count("nonzero_default_inputs")
     ctx = _Ctx(mon, case)
-    nt, npts = {"swizzle": _run_swizzle, "swap": _run_swap, "flatten": _run_flatten, "merge": _run_merge,
-                "splitflat": _run_splitflat, "updcoords": _run_updcoords, "updpay": _run_updpay}[kind](ctx)
+    try:
+        nt, npts = {"swizzle": _run_swizzle, "swap": _run_swap, "flatten": _run_flatten, "merge": _run_merge,
+                    "splitflat": _run_splitflat, "updcoords": _run_updcoords, "updpay": _run_updpay}[kind](ctx)
+    except _Skip:
+        return
     if nt and npts >= 2:
         mon.nontrivial()
 
@@ -758,7 +1002,7 @@ def _run_swizzle(ctx):
     case, mon = ctx.case, ctx.mon
     perm = case["perm"]
     t, c0, stored = _operand(ctx, "tensor")
-    ids = t.getRankIds()
+    ids = ctx.ids
     new_ids = [ids[j] for j in perm]
     op = "Tensor.swizzleRanks"
     desc = f"swizzleRanks({new_ids}) of a {ids} tensor"
@@ -772,7 +1016,9 @@ def _run_swizzle(ctx):
     ok, b = _call(ctx, op + ":inverse", desc + " then back", r.swizzleRanks, list(ids), tags=_stale_tag(r))
     if ok:
         mon.count("roundtrips_checked")
-        _judge(ctx, op + ":inverse", desc + " then back", b, c0, "roundtrip")
+        _judge(ctx, op + ":inverse", desc + " then back", b, c0, "roundtrip", ids=ids)
+    if good:
+        _reuse(ctx, op, desc, r, exp)
     return good and set(exp) != set(c0), len(c0)
 
 
@@ -802,6 +1048,8 @@ def _run_swap(ctx):
             return False, len(c0)
         good = _judge(ctx, op, desc, r, exp)
         _next_operand(ctx, r)
+        if good:
+            _reuse(ctx, op, desc, r, exp)
         ok, b = _call(ctx, op + ":twice", desc + " twice", r.swapRanks, depth=d)
     elif mode == "fiber":
         f, c0, stored = _operand(ctx, "fiber")
@@ -828,7 +1076,7 @@ def _run_swap(ctx):
     mon.state(("swap", D, d, mode, sorted(map(str, exp))[:6]))
     if ok:
         mon.count("roundtrips_checked")
-        _judge(ctx, op + ":twice", desc + " twice", b, c0, "roundtrip")
+        _judge(ctx, op + ":twice", desc + " twice", b, c0, "roundtrip", ids=ctx.ids if mode == "tensor" else None)
     return good and set(exp) != set(c0), len(c0)
 
 
@@ -859,6 +1107,11 @@ def _run_flatten(ctx):
     ctags = _inner_tag(stored, d, l) if ctx.default != 0 else ()
     good = _judge(ctx, op, desc, r, exp, style=style, tags=tags, ctags=ctags)
     mon.state(("flatten", D, d, l, style, mode, sorted(map(str, exp))[:6]))
+    noreuse = None
+    if d > 0 and any(not gen.content_of_spec(f, ctx.default) for f in _fibers_at(stored, d)):
+        # guard (decided: observed, not claimed - DESIGN 12.3, as for swaps): unflatten leaves a content-empty fiber at its depth as it
+        # is, and the rank takes the flattened (tuple) shape / active range from it
+        noreuse = "unflatten-leaves-content-empty-subtree"
     tr = case.get("tr")
     if style == "tuple" and tr is not None and d <= tr < d + l:
         # a flat tuple cannot tell a tuple coordinate of an upper combined rank from separate coordinates: not invertible
@@ -883,8 +1136,18 @@ def _run_flatten(ctx):
             u = r
         if ok:
             mon.count("roundtrips_checked")
+            rids = ctx.ids if mode == "tensor" else None
+            if rids is not None and tr is not None and d <= tr < d + l:
+                # TEMPORARY guard pending decision: the id of a flattened rank is a flat list, so after a 'pair' flattening whose
+                # upper combined rank already has a list id ([[K, M], N] -> [K, M, N]) unflatten restores the coordinates but
+                # names the ranks K and [M, N]
+                mon.count("rank_ids_not_judged:upper-combined-rank-has-list-id")
+                rids = None
             # a flattened fiber that took its default from an empty last child (class TAG_INNER) is then mis-seen as empty
-            _judge(ctx, uop, udesc, u, c0, "roundtrip", style=style, ctags=ctags, cls_op=op)
+            if _judge(ctx, uop, udesc, u, c0, "roundtrip", style=style, ctags=ctags, cls_op=op, ids=rids) and mode == "tensor":
+                _reuse(ctx, uop, udesc, u, c0, skip=noreuse)
+    elif good and mode == "tensor":
+        _reuse(ctx, op, desc, r, exp)
     return good and bool(c0), len(c0)
 
 
@@ -951,6 +1214,8 @@ def _run_merge(ctx):
     good = _judge(ctx, op, desc, r, exp, style=style, tags=tags, alt=alt, ctags=ctags)
     mon.count("collisions_merged", ncoll)
     mon.state(("merge", D, d, l, style, fname, mode, sorted(map(str, exp.items()))[:6]))
+    if good and mode == "tensor":
+        _reuse(ctx, op, desc, r, exp)
     return good and ncoll > 0, len(c0)
 
 
@@ -962,7 +1227,7 @@ def _run_splitflat(ctx):
     if _skip_tag(stored, d, default):
         mon.count("split_guard_skipped")        # the split itself leaves such a sub-tree unsplit (C08's)
         return False, 0
-    meth = {"uniform": "splitUniform", "equal": "splitEqual", "nonuniform": "splitNonUniform", "unequal": "splitUnEqual"}[sk]
+    meth = SPLIT_METH[sk]
     try:
         s = getattr(x, meth)(arg, depth=d, relativeCoords=rel)
     except BaseException:       # noqa  splitting itself is C08's
